@@ -11,6 +11,10 @@ type Tag struct { //nolint:govet
 	Name              TagName
 	Title             string
 	Description       *string
+
+	// declared is true for the tags defined by the TAG directive (and false for
+	// the tags generated from the paths).
+	declared bool
 }
 
 var _ json.Marshaler = &Tags{}
